@@ -184,6 +184,15 @@ func init() {
 					return true, fmt.Sprintf("MVP-4 cycles %d, cycle-accurate pipeline model (spec/Mvp4) %d", cyc, c.Exp.Cyc4)
 				}
 			}
+			if o.Cfg.Variant == "mvp5" && c.Exp.Cyc5 > 0 {
+				r.mu.Lock()
+				n5, _ := r.Cov["mvp5_cycle_model_comparisons"].(int64)
+				r.Cov["mvp5_cycle_model_comparisons"] = n5 + 1
+				r.mu.Unlock()
+				if cyc != c.Exp.Cyc5 {
+					return true, fmt.Sprintf("MVP-5 cycles %d, cycle-accurate pipeline model (spec/Mvp4 with BTB) %d", cyc, c.Exp.Cyc5)
+				}
+			}
 			if c.Fam == "Timing" {
 				k := oneLine(c.Prog) + " [image " + c.Img + "]"
 				mu.Lock()
